@@ -42,12 +42,18 @@ static RT mag(BInt b)
 	return v;
 }
 
+/* digit slots beyond placec hold arbitrary garbage, as in a block that was used for a longer number before */
+unsigned nondet_uint(void);
 static void load(struct bint *x, const BIntS *d, int c)
 {
 	int i;
 	x->isNeg = 0; x->placea = NARY; x->placec = c;
 	for (i = 0; i < c; i++)    x->placev[i] = d[i] & BINT_RADIX_MASK;
-	for (     ; i < NARY; i++) x->placev[i] = 0;
+#ifdef V_CBMC
+	for (     ; i < NARY; i++) x->placev[i] = nondet_uint() & BINT_RADIX_MASK;
+#else
+	for (     ; i < NARY; i++) x->placev[i] = (0x9e3779b9u * (i + 1)) & BINT_RADIX_MASK;
+#endif
 }
 #define NORMAL(x)   (Placec(x) == 0 || Placev(x)[Placec(x) - 1] != 0)
 #define DIGITS_OK(x, ok) do { Length i_; ok = 1; for (i_ = 0; i_ < Placec(x); i_++) if (Placev(x)[i_] > BINT_RADIX_MASK) ok = 0; } while (0)
